@@ -77,3 +77,79 @@ def catalogue(thorough=False):
     if thorough:
         ms += [dimer(t=-8, U=16, eps=-8), spinless_chain(4, t=-4), kanamori(U=12, J=0), spinflip_atom(h=-8, U=0), pair_atom(delta=-8, U=8)]
     return ms
+
+
+# ---------------------------------------------------------------------------------------
+# random Hermitian integer models built through the public lattice interface
+def random_layout(rng, max_modes, spins=(1, 2, 2, 2), orbs=(1, 1, 2)):
+    while True:
+        n = rng.randint(1, 3)
+        lay = [[chr(65 + i), rng.choice(orbs), rng.choice(spins)] for i in range(n)]
+        m = sum(o * s for (_, o, s) in lay)
+        if 1 <= m <= max_modes:
+            rng.shuffle(lay)          # insertion order differs from label order
+            return lay
+
+
+def random_model(rng, mid, max_modes=4, allow_break=True, spins=(1, 2, 2, 2), magn=False):
+    """returns a model dict; terms are Hermitian by construction"""
+    lay = random_layout(rng, max_modes, spins)
+    S = {l: (o, s) for (l, o, s) in lay}
+    labs = sorted(S)
+    b = []
+    amp = lambda: rng.choice([4, -4, 8, -8, 12, 2])
+    for l in labs:
+        if rng.random() < 0.8:
+            b.append(P("addCoulombS", l, rng.choice([0, 8, -4, 16]), rng.choice([0, -4, 4, 2])))
+        elif rng.random() < 0.5:
+            b.append(P("addLevel", l, amp()))
+        if S[l][0] > 1 and S[l][1] > 1 and rng.random() < 0.5:
+            b.append(P("addCoulombP3", l, rng.choice([8, 16]), rng.choice([0, 4]), rng.choice([0, -4])))
+        if S[l][1] == 2 and magn and rng.random() < 0.2:     # documentation/code factor 2 (known finding F13): off by default
+            b.append(P("addMagnetization", l, rng.choice([2, -4])))
+        if S[l][0] > 1 and rng.random() < 0.6:
+            b.append(P("addHopping6", l, l, amp(), 0, 1))
+    for i in range(len(labs)):
+        for j in range(i + 1, len(labs)):
+            l1, l2 = labs[i], labs[j]
+            r = rng.random()
+            if r < 0.5:
+                if S[l1] == S[l2]:
+                    b.append(P("addHopping4", l1, l2, amp()))
+                else:
+                    b.append(P("addHopping8", l1, l2, amp(), rng.randrange(S[l1][0]), rng.randrange(S[l2][0]),
+                               rng.randrange(S[l1][1]), rng.randrange(S[l2][1])))
+            elif r < 0.65 and S[l1] == S[l2] and S[l1][1] == 2:
+                b.append(P("addSS", l1, l2, rng.choice([4, -8])))
+            elif r < 0.75 and S[l1] == S[l2] and S[l1][1] == 2:
+                b.append(P("addSzSz", l1, l2, rng.choice([4, -8])))
+    if allow_break:
+        l = rng.choice(labs)
+        r = rng.random()
+        if r < 0.2 and S[l][1] >= 2:       # transverse field: S_z broken
+            b.append(P("addHopping8", l, l, amp(), 0, 0, 1, 0))
+        elif r < 0.35 and S[l][1] >= 2:    # pair field: N broken
+            v = amp()
+            b += [T([[1, l, 0, 1], [1, l, 0, 0]], v), T([[0, l, 0, 0], [0, l, 0, 1]], v)]
+        elif r < 0.45 and len(labs) > 1:   # inter-site pairing
+            l2 = [x for x in labs if x != l][0]
+            v = amp()
+            b += [T([[1, l, 0, 0], [1, l2, 0, 0]], v), T([[0, l2, 0, 0], [0, l, 0, 0]], v)]
+    if not b:
+        b.append(P("addLevel", labs[0], 4))
+    return model(mid, lay, b)
+
+
+def nmodes(m):
+    return sum(o * s for (_, o, s) in m["sites"])
+
+
+def linear_candidates(rng, m):
+    """candidate integrals of motion, linear in the occupation numbers (list of opspecs)"""
+    M = nmodes(m)
+    c = [[[1, 1, [i]] for i in range(M)],                     # N
+         [[i + 1, 1, [i]] for i in range(M)],                 # sum (i+1) n_i
+         [[1, 2, [i]] for i in range(M)],                     # N/2
+         [[(-1) ** i, 2, [i]] for i in range(M)]]             # alternating halves
+    c += [[[1, 1, [i]]] for i in range(M)]                    # n_i
+    return c
